@@ -46,6 +46,7 @@ type h2Resp struct {
 	Hang     bool          `json:"never_answers,omitempty"`
 	ResetAt  int           `json:"reset_after_bytes,omitempty"` // fault: close abruptly after n response bytes (-1: before any)
 	CloseAft bool          `json:"close_after,omitempty"`
+	Early    int           `json:"informational_responses_first,omitempty"` // number of 103 Early Hints sent before the final response
 }
 
 type h2Req struct {
@@ -100,6 +101,7 @@ type h2Result struct {
 	HeaderAt time.Time
 	TE       []string
 	CL       int64
+	Interim  []int
 }
 
 type h2Env struct {
@@ -230,6 +232,9 @@ func (e *h2Env) serveUpstream(key string, rawConn, c net.Conn) {
 			case <-e.stop:
 				return
 			}
+		}
+		for i := 0; i < rs.Early; i++ {
+			fmt.Fprintf(c, "HTTP/1.1 103 Early Hints\r\nLink: </style%d.css>; rel=preload\r\n\r\n", i)
 		}
 		raw := h2RenderResponse(req.Method, &rs)
 		if rs.ResetAt != 0 {
@@ -414,6 +419,11 @@ func (e *h2Env) client(cl *h2Client) {
 				continue
 			}
 			resp, err := http.ReadResponse(br, &http.Request{Method: rq.Method})
+			// interim responses (100 Continue, 103 Early Hints) precede the final one
+			for err == nil && resp.StatusCode >= 100 && resp.StatusCode < 200 && resp.StatusCode != 101 {
+				res.Interim = append(res.Interim, resp.StatusCode)
+				resp, err = http.ReadResponse(br, &http.Request{Method: rq.Method})
+			}
 			if err != nil {
 				res.Err = err
 				closeConn()
